@@ -38,3 +38,7 @@ pub use generators::pedersen_gens::PedersenGens;
 pub use merlin::Transcript;
 
 pub mod ristretto;
+
+/// Verification hooks (feature `verif-hooks` only)
+#[cfg(feature = "verif-hooks")]
+pub mod verif_hooks;
